@@ -91,7 +91,7 @@ upcase_string(const string &str) {
  * Finds a dependency cycle between the given dependency mapping, starting at
  * the node that is already placed in the given cycle vector.
  */
-static bool find_dependency_cycle(vector_string &cycle, std::map<string, std::set<string> > &dependencies) {
+static bool find_dependency_cycle(vector_string &cycle, std::map<string, std::set<string> > &dependencies, std::set<string> &visited) {
   assert(!cycle.empty());
 
   const std::set<string> &deps = dependencies[cycle.back()];
@@ -104,9 +104,16 @@ static bool find_dependency_cycle(vector_string &cycle, std::map<string, std::se
       return true;
     }
 
+    // A library that was already searched without finding a cycle cannot
+    // lead to one now; searching it again for every path that reaches it takes
+    // exponential time.
+    if (!visited.insert(*it).second) {
+      continue;
+    }
+
     // Recurse.
     cycle.push_back(*it);
-    if (find_dependency_cycle(cycle, dependencies)) {
+    if (find_dependency_cycle(cycle, dependencies, visited)) {
       return true;
     }
     cycle.pop_back();
@@ -259,7 +266,8 @@ int write_python_table_native(std::ostream &out) {
         // want to let the user know about this.
         vector_string cycle;
         cycle.push_back(library_name);
-        if (!find_dependency_cycle(cycle, dependencies)) {
+        std::set<string> visited;
+        if (!find_dependency_cycle(cycle, dependencies, visited)) {
           continue;
         }
         assert(cycle.size() >= 2);
